@@ -50,6 +50,8 @@ pub struct GLayer {
     pub layer: String,
     pub width: Option<Dec>,
     pub shapes: Vec<GShape>,
+    /// the block also holds a `VIA x y name ;` placement (which the importer leaves out, with a warning)
+    pub via: bool,
 }
 #[derive(Clone, Debug)]
 pub struct GPin {
@@ -70,6 +72,9 @@ pub struct Case {
     pub macros: Vec<GMacro>,
     /// UNITS DATABASE MICRONS value, if the library states one
     pub dbu: Option<u32>,
+    /// the caller supplies a layer set: it already knows `m1` and `via` (sharing layer number 68), `M1` (69) and a
+    /// layer `other`; the LEF's remaining layer names are new to it
+    pub supplied_layers: bool,
 }
 
 const LAYERS: [&str; 5] = ["m1", "M1", "via", "boundary", "\u{e9}"];
@@ -184,7 +189,8 @@ impl<'a> Gen<'a> {
         }
         let has_path = shapes.iter().any(|s| matches!(s, GShape::Path(_)));
         let width = if has_path { Some(self.coord(false)) } else { None };
-        GLayer { layer, width, shapes }
+        let via = self.c.cost(2, "layer-via-placement") == 1;
+        GLayer { layer, width, shapes, via }
     }
     fn pin(&mut self, idx: usize, first_kind: Option<usize>) -> GPin {
         let mut ports = vec![];
@@ -240,6 +246,7 @@ fn lef_layer(l: &GLayer) -> LefLayerGeometries {
         layer_name: l.layer.clone(),
         geometries: l.shapes.iter().map(|s| LefGeometry::Shape(lef_shape(s))).collect(),
         width: l.width.as_ref().map(|w| w.lef()),
+        vias: if l.via { vec![lef21::LefVia { via_name: "M1M2".into(), pt: LefPoint::new(LefDecimal::new(5, 1), LefDecimal::new(5, 1)) }] } else { vec![] },
         ..Default::default()
     }
 }
@@ -365,11 +372,11 @@ impl CaseDriver for C16 {
     fn describe(&self, tier: Tier) -> Describe {
         Describe {
             rule: format!(
-                "LefLibrary values built directly: 1-2 macros with SIZE, 0-2 pins x 1-2 ports x 1-2 layer geometries, 0-2 obstruction layers (second optionally on the same layer => merged), 1-2 geometries per layer of kind RECT / POLYGON (3-5 points) / PATH (2-3 points, layer WIDTH), the second one optionally the first one stated again (digit for digit, with one more trailing zero on every number, or with the same digits and the decimal point moved one place: still two shapes), layer names from {{m1, M1, via, boundary, e-acute}}; polygons optionally closed explicitly and paths optionally returning to their first point; UNITS DATABASE MICRONS absent / 1000 / 100 / 2000 / 10000 / 20000 (raw units stay 1e-4 um: the import declares Angstrom); the macro optionally has an ORIGIN statement ((0.5, 1.25) / (-2, 0)), which must not move any coordinate; every coordinate site takes one of 14 decimals Decimal::new(mantissa, scale) built from the site counter (so all sites differ: x != y everywhere): scale 0,1,2,4,5,6, negative, negative between -1 and 0, trailing zeros, zero spelled 0 and 0.000, and four values (two positive, two negative) that are not a whole number of 1e-4 um. Free: kind of the first shape and second macro; all other choices cost one deviation; all choice sequences with <= {} deviations. A state is one library value; non-trivial = at least one deviation. Oracle: value*10^4 computed on the decimal digits.",
+                "LefLibrary values built directly: 1-2 macros with SIZE, 0-2 pins x 1-2 ports x 1-2 layer geometries, 0-2 obstruction layers (second optionally on the same layer => merged), 1-2 geometries per layer of kind RECT / POLYGON (3-5 points) / PATH (2-3 points, layer WIDTH), the second one optionally the first one stated again (digit for digit, with one more trailing zero on every number, or with the same digits and the decimal point moved one place: still two shapes), layer names from {{m1, M1, via, boundary, e-acute}}, a layer block optionally holding a VIA placement next to its shapes, the import optionally given a layer set that already knows m1 and via (sharing number 68), M1 and an unrelated layer; polygons optionally closed explicitly and paths optionally returning to their first point; UNITS DATABASE MICRONS absent / 1000 / 100 / 2000 / 10000 / 20000 (raw units stay 1e-4 um: the import declares Angstrom); the macro optionally has an ORIGIN statement ((0.5, 1.25) / (-2, 0)), which must not move any coordinate; every coordinate site takes one of 14 decimals Decimal::new(mantissa, scale) built from the site counter (so all sites differ: x != y everywhere): scale 0,1,2,4,5,6, negative, negative between -1 and 0, trailing zeros, zero spelled 0 and 0.000, and four values (two positive, two negative) that are not a whole number of 1e-4 um. Free: kind of the first shape and second macro; all other choices cost one deviation; all choice sequences with <= {} deviations. A state is one library value; non-trivial = at least one deviation. Oracle: value*10^4 computed on the decimal digits.",
                 self.bound(tier)
             ),
             assumptions: vec!["WIDTH is only generated on layers that hold a PATH (an unused non-representable WIDTH is not a coordinate of any shape)".into()],
-            excluded: vec!["statements the importer documents as unsupported (EXCEPTPGNET, non-zero SPACING, ITERATE, vias) and macros without SIZE".into()],
+            excluded: vec!["statements the importer documents as unsupported (EXCEPTPGNET, non-zero SPACING, ITERATE) and macros without SIZE; VIA placements inside a layer block are left out by the importer, the block's shapes are still required".into()],
             technique: "deviation-bounded exhaustive enumeration of LEF library values on the real LefImporter vs exact decimal-digit scaling".into(),
         }
     }
@@ -385,7 +392,8 @@ impl CaseDriver for C16 {
         if two {
             macros.push(g.makro(1, None));
         }
-        Case { macros, dbu }
+        let supplied_layers = g.c.cost(2, "caller-supplied-layers") == 1;
+        Case { macros, dbu, supplied_layers }
     }
     fn check(&self, case: &Case, key: &str, cx: &mut Cx) {
         let (_, unrep) = class_of(case);
@@ -409,7 +417,17 @@ impl CaseDriver for C16 {
                 cx.tag("two-ports");
             }
         }
-        let res = guard(|| raw::lef::LefImporter::import(&leflib, None).map_err(|e| format!("{e:?}")));
+        let supplied = if case.supplied_layers {
+            let mut ls = raw::Layers::default();
+            for (n, name) in [(68i16, "m1"), (68, "via"), (69, "M1"), (3, "other")] {
+                ls.add(raw::Layer::new(n, name));
+            }
+            cx.tag("caller-supplied-layers");
+            Some(raw::utils::Ptr::new(ls))
+        } else {
+            None
+        };
+        let res = guard(|| raw::lef::LefImporter::import(&leflib, supplied).map_err(|e| format!("{e:?}")));
         let render = || json!({"macros": format!("{:?}", case.macros)});
         match res {
             Err(p) => {
